@@ -1178,3 +1178,48 @@ pub mod modlook {
         fn require_paren(&mut self) -> bool { self.match_token(&TokenKind::LParen) }
     }
 }
+
+/// C17 R7 controls: a callee that is given a handle may return that very handle.
+pub mod c17free {
+    pub struct H(pub u64);
+    pub type Cb = unsafe extern "C" fn(*mut H) -> *mut H;
+
+    pub fn bad_trampoline(cb: Cb, v: u64) -> u64 {
+        let h = Box::into_raw(Box::new(H(v)));
+        let r = unsafe { cb(h) };
+        unsafe { drop(Box::from_raw(h)) };
+        if r.is_null() {
+            return 0;
+        }
+        let b = unsafe { Box::from_raw(r) };
+        b.0
+    }
+
+    pub fn good_trampoline(cb: Cb, v: u64) -> u64 {
+        let h = Box::into_raw(Box::new(H(v)));
+        let r = unsafe { cb(h) };
+        if h != r {
+            unsafe { drop(Box::from_raw(h)) };
+        }
+        if r.is_null() {
+            return 0;
+        }
+        let b = unsafe { Box::from_raw(r) };
+        b.0
+    }
+
+    pub fn good_trampoline_eq(cb: Cb, v: u64) -> u64 {
+        let h = Box::into_raw(Box::new(H(v)));
+        let r = unsafe { cb(h) };
+        if r == h {
+            // the callee handed the argument back: it is freed below, once
+        } else {
+            unsafe { drop(Box::from_raw(h)) };
+        }
+        if r.is_null() {
+            return 0;
+        }
+        let b = unsafe { Box::from_raw(r) };
+        b.0
+    }
+}
